@@ -1,7 +1,7 @@
 (* Properties_C11.v — C11 "regular-expression rewrites accept exactly the same language".
    Only statements closed by [exact]; see Proofs_Regex*.v.  Naming: _partial = holds under the stated guard,
    _refuted = the unguarded statement is false, with a concrete witness. *)
-From GC Require Import Base Model_Regex Model_RegexSimplify Proofs_Regex Proofs_RegexRules Proofs_RegexSimplify Proofs_RegexWalk Proofs_RegexWalkS Model_RegexText Proofs_RegexText.
+From GC Require Import Base Model_Regex Model_RegexSimplify Proofs_Regex Proofs_RegexRules Proofs_RegexSimplify Proofs_RegexWalk Proofs_RegexWalkS Proofs_RegexLit Model_RegexText Proofs_RegexText.
 
 (* observational equivalence gives the same FindStringSubmatchIndex vector on every subject *)
 Theorem C11_equiv_same_matches : forall a b n, req a b -> forall s, go_vec n (find a s) = go_vec n (find b s).
@@ -339,3 +339,17 @@ Example C11_text_guards_satisfiable :
   items_ok None [X OpCharRange "a-c" [X OpChar "a" []; X OpChar "c" []]; X OpChar "-" []; X OpChar "x" []; X OpChar "-" []] = true.
 Proof. exact text_guards_satisfiable. Qed.
 Print Assumptions C11_text_guards_satisfiable.
+
+(* ---------- the two factoring forms with the SHORTER alternative first, for arbitrary literals ---------- *)
+
+(* x|xt => xt? is wrong for EVERY literal x and rune t: on the subject xt the alternation ends after x *)
+Theorem C11_prefix_shorter_first_all_refuted : forall rs t,
+  find (RAlt (lit rs) (lit (rs ++ [t])%list)) (rs ++ [t])%list <> find (RCat (lit rs) (RQuest true (lit [t]))) (rs ++ [t])%list.
+Proof. exact prefix_shorter_first_refuted_all. Qed.
+Print Assumptions C11_prefix_shorter_first_all_refuted.
+
+(* x|hx => h?x is right whenever x is not a prefix of hx (then the two literals never match at the same place) *)
+Theorem C11_rule_factor_suffix_shorter_first_literal_partial : forall x h,
+  firstn (length x) (h :: x) <> x -> req (RAlt (lit x) (lit (h :: x))) (RCat (RQuest true (lit [h])) (lit x)).
+Proof. exact suffix_shorter_first_sound. Qed.
+Print Assumptions C11_rule_factor_suffix_shorter_first_literal_partial.
